@@ -489,6 +489,21 @@ def run(chk) -> None:
     outs = [l for l in ast.walk(fs.node) if isinstance(l, (ast.For, ast.comprehension)) and isinstance(l.iter, ast.Call) and astq.callee_name(l.iter) == "sorted" and len(l.iter.args) == 1 and isinstance(l.iter.args[0], ast.Name)]
     plain = [l for l in outs if not l.iter.keywords]
     keyed = [l for l in outs if any(k.arg == "key" for k in l.iter.keywords)]
+    # sorted() is stable: elements its order does not separate keep the iteration order of the input.  `Residue3D.__lt__` compares
+    # (model, chain, number, icode) only, so two different residues with one number (alternate conformers, microheterogeneity)
+    # are such a tie; a list keeps them in discovery order, a set in hash order (the hash of a residue hashes strings, which is
+    # randomised per process)
+    for l in plain:
+        src = l.iter.args[0].id
+        sets = [v for _, v in astq.assignments(fs.node, src) if v is not None and (isinstance(v, (ast.Set, ast.SetComp)) or (isinstance(v, ast.Call) and astq.callee_name(v) in ("set", "frozenset")))]
+        chk.expect(
+            not sets,
+            "sorted-emission",
+            fs.site(l.iter),
+            f"`{src}` keeps the order in which the stackings were found, so ties of sorted() are reproducible",
+            f"`{src}` is a set: sorted() keeps elements that `<` does not separate (residues equal in (model, chain, number, icode), e.g. alternate conformers under one number) in the iteration order of the set, which follows hash values and differs from run to run - the order of the stackings is no longer a function of the input",
+            K(fs, "emission-set"),
+        )
     if len(outs) == 1 and keyed:
         from checks import c11e
 
